@@ -53,20 +53,34 @@ Theorem C40_using_factory_failure_emits : forall rf obf e pre ins,
 Proof. exact using_factory_failure_emits. Qed.
 Print Assumptions C40_using_factory_failure_emits.
 
+(* ... and the same with a subscribe-time scheduler (since /repo's fix of using the failure is delivered inside
+   subscribe() in both cases; before it, with a scheduler, the error was only queued and could be overtaken) *)
+Theorem C40_using_factory_failure_emits_any_scheduler : forall rf obf sched e pre ins,
+  using_failure rf obf = Some e ->
+  temitted (fst (run (with_pre (x_using rf obf sched) pre) ins)) = [(0%nat, Err e)].
+Proof.
+  intros rf obf sched e pre ins H.
+  assert (E : x_using rf obf sched = x_using rf obf false).
+  { destruct rf as [has|e1]; [destruct obf as [u|e2]|]; cbn in H; try discriminate; reflexivity. }
+  rewrite E. exact (using_factory_failure_emits rf obf e pre ins H).
+Qed.
+Print Assumptions C40_using_factory_failure_emits_any_scheduler.
+
 Example C40_using_failure_hyp :
   using_failure (Ok true) (Raise 7) = Some 7 /\ using_failure (Raise 8) (Ok tt) = Some 8 /\
   has_resource (Ok true) = true /\ has_resource (Ok false) = false /\ has_resource (Raise 8) = false.
 Proof. repeat split. Qed.
 
-(* the observable factory raises, no scheduler: created, released and on_error
-   all inside subscribe(); with a scheduler the error comes with timer 0 *)
+(* the observable factory raises: created, released and on_error all inside
+   subscribe(), with or without a subscribe-time scheduler (since /repo's fix of
+   using; before it the error was a throw() queued on that scheduler) *)
 Example C40_using_factory_failure_immediate :
   run_canon (x_using (Ok true) (Raise 7) false) []
   = [(0%nat, OEmit (Err 7)); (0%nat, OEffect E_CREATED); (0%nat, OEffect E_RELEASED)].
 Proof. vm_compute. reflexivity. Qed.
-Example C40_using_factory_failure_scheduled_then_disposed :
+Example C40_using_factory_failure_with_scheduler_is_immediate_too :
   run_canon (x_using (Ok true) (Raise 7) true) [(5, IDispose); (5, ITick 0%nat)]
-  = [(0%nat, OTimer 0%nat 0); (0%nat, OEffect E_CREATED); (1%nat, OCancel 0%nat); (1%nat, OEffect E_RELEASED)].
+  = [(0%nat, OEmit (Err 7)); (0%nat, OEffect E_CREATED); (0%nat, OEffect E_RELEASED)].
 Proof. vm_compute. reflexivity. Qed.
 Example C40_using_termination_and_disposal_same_instant :
   run_canon (x_using (Ok true) (Ok tt) false) [(5, ISrc 0%nat Done); (5, IDispose)]
